@@ -70,10 +70,12 @@ func runCheck(args []string) int {
 	}
 	t0 := time.Now()
 	cfg := symx.Config{Solver: solverName(), TimeoutMs: 10000, Unwind: 64, ConcCap: 16, Preempt: 1, MaxSteps: 20000000, Seed: seed, Verbose: verbose}
+	cfg.MaxWallS = 300 // per harness; every quick harness finishes in < 150 s on the unchanged tree
 	if tier == "thorough" {
 		cfg.Tier = 1
 		cfg.TimeoutMs = 60000
 		cfg.Preempt = 2
+		cfg.MaxWallS = 1500
 	}
 	if replay != "" {
 		return doReplay(prop, replay, cfg)
@@ -125,6 +127,9 @@ func runCheck(args []string) int {
 				continue // reported as violations (or expected by the harness)
 			}
 			fmt.Printf("  INCONCLUSIVE [%d paths] %s\n", n, m)
+		}
+		if r.Truncated {
+			fmt.Printf("  INCONCLUSIVE harness %s was not explored to the end (time budget, path limit or repeated solver time-outs): not exhaustive\n", r.Name)
 		}
 		for o, n := range r.Paths {
 			pathsByOutcome[o] += n
